@@ -73,7 +73,8 @@ def special_builds(ctx, quick_big=False):
         for e in (None, 0, 3):
             for v in (None, 0, 9, 39):
                 cases.append(build_case(fm, e, v, None, b""))
-    for cb in (0x00, 0xFF, 0xEC, 0x11, 0x55, 0xAA, 0x30, 0x41):
+    # 0xCE / 0x11: byte-mode payloads whose data codewords are the pad codewords 0xEC / 0x11 (the 12 header bits shift by a nibble)
+    for cb in (0x00, 0xFF, 0xEC, 0x11, 0xCE, 0x55, 0xAA, 0x30, 0x41):
         for n in (1, 17, 106) + ((1273, 2953) if (quick_big or not ctx.quick) else ()):
             for e in ((0, 3) if n > 1000 else (1,)):
                 if not (n == 2953 and e == 3):
@@ -82,6 +83,12 @@ def special_builds(ctx, quick_big=False):
         n = rng.choice([20, 55, 100, 300])
         cases.append(build_case(None, rng.randrange(4), None, None, payload(rng, 2, n, "periodic")))
         cases.append(build_case(None, rng.randrange(4), rng.choice([4, 9, 16]), None, payload(rng, 2, 5, "periodic")))
+    # pad look-alike payloads that end before the version is full, so that genuine padding follows (every small version, two levels)
+    for v in ((3, 5, 9) if ctx.quick else range(1, 12)):
+        for e in (2, 3):
+            for cb in (0xCE, 0x11):
+                for n in ((17, 37) if ctx.quick else (9, 17, 18, 25, 37, 50)):
+                    cases.append(build_case(2, e, v, None, bytes([cb]) * n))
     # a tiny payload in a forced large version (almost all padding), every level
     for v in ((35, 39) if ctx.quick else (30, 35, 36, 37, 38, 39)):
         for e in range(4):
@@ -857,6 +864,10 @@ def run_C07(ctx):
                 sc.append("struct %d %d %s" % (e, v, hexs((bytes([0xEC, 0x11]) * d)[:d] + bytes(tot - d))))
                 per = bytes(rng.randrange(256) for _ in range(rng.choice([3, 5, 7])))
                 sc.append("struct %d %d %s" % (e, v, hexs((per * d)[:d] + bytes(tot - d))))
+                # only the two pad codewords, but NOT alternating (runs, random order), followed by genuine padding
+                k_ = rng.randrange(1, max(2, d))
+                body = bytes(rng.choice([0xEC, 0x11]) for _ in range(k_)) if rng.random() < 0.5 else bytes([rng.choice([0xEC, 0x11])]) * k_
+                sc.append("struct %d %d %s" % (e, v, hexs((body + bytes([0xEC, 0x11]) * d)[:d] + bytes(tot - d))))
     simpl, _ = ctx.correspond("structure", sc)
     tr = []
     for c, o in zip(sc, simpl):
@@ -1238,6 +1249,14 @@ def run_C11(ctx):
         seq.append(build_case(None, 3, v, None, data))
         seq.append(build_case(None, 1, v, None, data, "cands"))
     check_selection(ctx, seq, "cands_after_forced", in_order=True)
+    # "a forced mask always overrides the selection", also when the mask is set on a builder that has already built
+    hc = []
+    for data in (b"HELLO WORLD", b"12345", b"hello"):
+        for k in range(8):
+            hc.append("hist %s build mask=%d build" % (hexs(data), k))
+        hc.append("hist %s mask=1 build mask=6 build build" % hexs(data))
+        hc.append("hist %s build ecl=3 build mask=4 build version=6 build" % hexs(data))
+    check_hist_cases(ctx, hc)
 
 
 # ------------------------------------------------------------------------------------------ C16
@@ -1482,7 +1501,8 @@ def run_C13(ctx):
     for _ in range(40):
         fg_ = pal() + pal() + pal() + "ff"
         bg_ = pal() + pal() + pal() + rng.choice(["ff", "ff", "00", "80"])
-        if fg_[:6] != bg_[:6]:
+        # clearly different colours only (the pixel oracle has a tolerance of 1 per channel)
+        if max(abs(int(fg_[i:i + 2], 16) - int(bg_[i:i + 2], 16)) for i in (0, 2, 4)) >= 32:
             colours.append((fg_, bg_))
     colours += [("ffffffff", "000000ff"), ("ffff00ff", "ff0000ff"), ("00ff00ff", "ffff00ff")]
     # colours given as CSS strings (Color: From<&str> / From<String>), with the rgba they denote
@@ -1524,6 +1544,14 @@ def run_C13(ctx):
         side = n + 8
         for w_, h_ in [(side * 5, side * 5), (side * 4, side * 4), (side, side), (side * 4, side * 4 + 1), (side * 4 + 1, side * 4)]:
             cases.append("raster %d %s shape=0 margin=4 fitw=%d fith=%d" % (n, hx, w_, h_))
+    # translucent colours with arbitrary alpha (alpha is exact wherever nothing is blended: light cells, dark cells over a fully
+    # transparent background)
+    if mats:
+        n, hx = mats[min(mats)]
+        for al in ([1, 37, 100, 200, 254] if ctx.quick else [1, 2, 37, 77, 100, 129, 150, 200, 253, 254]):
+            cases.append("raster %d %s shape=0 margin=1 fg=000000ff bg=ffffff%02x" % (n, hx, al))
+            cases.append("raster %d %s shape=0 margin=1 fg=1020c0%02x bg=00000000 fitw=%d" % (n, hx, al, (n + 2) * 4))
+            cases.append("raster %d %s shape=1 margin=0 fg=000000ff bg=%02x%02x%02x%02x fitw=%d" % (n, hx, rng.randrange(96, 256), rng.randrange(256), rng.randrange(256), rng.randrange(64, 255), n * 5))   # clearly not black
     # a large request (beyond 4096 pixels), and other values in the QRCode's level / mask fields
     if mats:
         n, hx = mats[min(mats)]
@@ -1727,6 +1755,8 @@ def check_wasm_cases(ctx, cases, stream="wasm"):
                     opts[k] = (body + ("ff" if len(body) == 6 else "")).lower()
                 elif all(ord(ch) < 128 for ch in body) and (len(body) < 6 or len(body) > 9):
                     pass              # fewer than 3 or more than 4 byte pairs: "a malformed color ... every setter ignores" (documented)
+                elif all(ord(ch) < 128 for ch in body) and "+" not in body and any(ch not in HEXD for ch in body[:2 * (len(body) // 2)]):
+                    pass              # a complete pair that is not two hex digits (e.g. a second '#'): the parse fails, the value is ignored
                 else:
                     well = False      # unclear whether the parser accepts it: only no-panic is required
             elif k == "ipos":
@@ -1957,7 +1987,7 @@ def run_C19(ctx):
     shutil.rmtree(wd, ignore_errors=True)      # outputs of earlier runs
     os.makedirs(wd, exist_ok=True)
     classes = ["ok", "overwrite", "samelen", "bare", "missingdir", "isdir", "devfull", "procfs", "longname", "nul",
-               "empty", "root", "dot", "dotdot", "trailslash", "relmissing", "trailspace", "leadspace", "trailnl"]
+               "empty", "root", "dot", "dotdot", "trailslash", "relmissing", "trailspace", "leadspace", "trailnl", "otherext", "noext"]
     cases = ["file %s %s %s %s" % (k, cl, wd, sz) for k in ("svg", "png") for cl in classes for sz in ("small", "large")]
     cases += ["file svg fsize %s %s" % (wd, sz) for sz in ("small", "large")]   # both SVG documents exceed the 1 KiB limit
     cases += ["file svg %s %s nonascii" % (cl, wd) for cl in ("ok", "overwrite", "samelen", "bare")]   # a document with non-ASCII text
@@ -1968,7 +1998,7 @@ def run_C19(ctx):
     ctx.count_oracle("all_or_error", len(cases))
     for c, o in zip(cases, impl):
         cl = c.split()[2]
-        if cl in ("ok", "overwrite", "samelen", "bare", "trailspace", "leadspace", "trailnl"):
+        if cl in ("ok", "overwrite", "samelen", "bare", "trailspace", "leadspace", "trailnl", "otherext", "noext"):
             if o != "RET_OK same=1":
                 ctx.direct_failure("all_or_error", {"case": c}, "write to a writable path: " + o)
         else:
@@ -2094,6 +2124,11 @@ def fuzz_builds_and_hist(which):
     return f
 
 
+def fuzz_selection_and_hist(ctx, cands):
+    fuzz_builds(selection=True)(ctx, cands)
+    fuzz_hist(ctx, cands)
+
+
 def fuzz_wasm(ctx, cands):
     cases = cands.get("wasm", [])[:150]
     if cases:
@@ -2121,7 +2156,7 @@ REGISTRY = {
             "rule": "all strings of <= 2 bytes (quick: stride 5 on pairs), all class patterns up to length 8 (quick: 6), random long strings"},
     "C10": {"run": run_C10, "fuzz": fuzz_builds(nopanic=True, outcome=True), "corpus": corpus_builds([]), "tables": ["all"],
             "rule": "debug build (overflow checks + debug assertions): builds at boundary lengths, all-zero / 0xFF / pad look-alike payloads, lengths up to 8000; negative controls must panic"},
-    "C11": {"run": run_C11, "fuzz": fuzz_builds(selection=True), "tables": ["percent_score"],
+    "C11": {"run": run_C11, "fuzz": fuzz_selection_and_hist, "tables": ["percent_score"],
             "rule": "selection traces through the hook recorder; documented penalty of every candidate; raw line / matrix scanners"},
     "C12": {"run": run_C12, "fuzz": fuzz_svg, "tables": [],
             "rule": "SvgBuilder::to_str on real symbols: margins, 0..3 shape layers over the 6 shapes with and without colours, alpha, images incl. XML-special and non-ASCII strings, background shapes, overrides (multiples of 0.25)"},
